@@ -13,6 +13,10 @@ import Hgxv.Model.C16
   `output cfg weights labels|-`                            -> `w,node,...;...` | `none`
   `trunc quantiles`                                        -> weights (`np.maximum(quantile, 1)`)
   `fromhyg labels edges burn thins quantiles`              -> `out|out|...` | `none`
+  `fromhygQ labels edges burn thins quantiles`             -> `out|out|...` | `none`   labels are rationals `p/q` (any number:
+        negative and huge integers, floats and fractions by their exact value): `sampleFromHygG` at `α = Rat`
+  `fromhygS labels edges burn thins quantiles`             -> likewise, labels are opaque tokens (strings, hex-coded):
+        `sampleFromHygG` at `α = String`
   `fromseqs degSeq dimSeq fd fm fixed picks burn thins quantiles` -> `flag out|out|...` | `none`
         `quantiles`: per sample the Poisson quantiles of `sample_truncated_poisson` (the weights are clamped to >= 1)
   `new`                                                    -> `ok`; the state becomes a sampler that has just been built
@@ -38,6 +42,11 @@ def showCfgs (l : List Config) : String := showList "|" "-" (fun c => showList "
 def showOut (o : List (Hye × Nat)) : String :=
   showList ";" "_" (fun (p : Hye × Nat) => showList "," "_" toString (p.2 :: p.1)) o
 def showOuts (l : List (List (Hye × Nat))) : String := showList "|" "-" showOut l
+def showOutG {α} (sh : α → String) (o : List (List α × Nat)) : String :=
+  showList ";" "_" (fun (p : List α × Nat) => showList "," "_" id (toString p.2 :: p.1.map sh)) o
+def showOutsG {α} (sh : α → String) (l : List (List (List α × Nat))) : String := showList "|" "-" (showOutG sh) l
+def strs? (s : String) : Option (List String) := listOf? "," "-" some s
+def strss? (s : String) : Option (List (List String)) := listOf? ";" "-" (listOf? "," "_" some) s
 def flag? (s : String) : Option Bool := match s with | "1" => some true | "0" => some false | _ => none
 def labels? (s : String) : Option (Option (List Nat)) := if s = "-" then some none else (nats? s).map some
 
@@ -117,6 +126,20 @@ def stateless (_ : Unit) : List String → Unit × String
     | some labels, some edges, some burn, some thins, some ws =>
       match sampleFromHyg labels edges ⟨[], burn, thins, ws⟩ with
       | some os => ((), showOuts os)
+      | none => ((), "none")
+    | _, _, _, _, _ => ((), "bad-op")
+  | ["fromhygQ", l, e, b, t, w] =>
+    match rats? l, ratss? e, steps? b, blocks? t, natss? w with
+    | some labels, some edges, some burn, some thins, some ws =>
+      match sampleFromHygG labels edges ⟨[], burn, thins, ws⟩ with
+      | some os => ((), showOutsG showRat os)
+      | none => ((), "none")
+    | _, _, _, _, _ => ((), "bad-op")
+  | ["fromhygS", l, e, b, t, w] =>
+    match strs? l, strss? e, steps? b, blocks? t, natss? w with
+    | some labels, some edges, some burn, some thins, some ws =>
+      match sampleFromHygG labels edges ⟨[], burn, thins, ws⟩ with
+      | some os => ((), showOutsG id os)
       | none => ((), "none")
     | _, _, _, _, _ => ((), "bad-op")
   | ["fromseqs", d, m, fd, fm, f, p, b, t, w] =>
